@@ -55,6 +55,9 @@ func PlayMode(beh M, rng *rand.Rand, proj *Projection, mode int) ([]M, error) {
 	if S(cfg, "limit") == "sym" {
 		cfg["_limit"] = SymLimits[rng.Intn(len(SymLimits))]
 	}
+	if S(cfg, "tls") == "empty" {
+		cfg["_tlsfield"] = rng.Intn(2)
+	}
 	x, err := NewExec(cfg)
 	if err != nil {
 		return nil, err
